@@ -1097,6 +1097,11 @@ void SPxSolverBase<R>::setType(Type tp)
       , m_maxCycle(100)
       , m_numCycle(0)
       , initialized(false)
+      , instableLeaveNum(0)
+      , instableLeave(false)
+      , instableLeaveVal(0)
+      , instableEnter(false)
+      , instableEnterVal(0)
       , solveVector2(nullptr)
       , solveVector3(nullptr)
       , coSolveVector2(nullptr)
